@@ -138,7 +138,7 @@ def run(tier, seed, replay=None):
     for L in range(1, maxlen + 1):
         seqs += list(itertools.product(OPS, repeat=L))
     rep.extra['exhaustive_up_to_length'] = maxlen
-    nrand = 300 if tier == 'quick' else 12000
+    nrand = 300 if tier == 'quick' else 48000
     for _ in range(nrand):
         L = rng.randrange(maxlen + 1, 7)
         seqs.append(tuple(rng.choice(OPS) for _ in range(L)))
